@@ -94,7 +94,8 @@ if ok:
     os.makedirs(dst, exist_ok=True)
     for f in ('patch.diff', 'demo.py', 'notes.md'):
         if os.path.exists(os.path.join(src, f)):
-            shutil.copy(os.path.join(src, f), dst)
+            if os.path.realpath(src) != os.path.realpath(dst):
+                shutil.copy(os.path.join(src, f), dst)
     notes = os.path.join(src, 'notes.md')
     meta['needs'] = open(notes).read()[:1500] if os.path.exists(notes) else ''
     mp = os.path.join(dst, 'meta.json')
